@@ -27,6 +27,24 @@ NEEDS = {
     'C18-aB': 'condition vector whose conditions do not first appear in ascending order: indicator columns by first appearance',
     'C19-aA': 'non-integer radius (1.5, 2.5): bounding-box prefilter with int(radius) drops voxels',
     'C19-aB': "n_jobs != 1 and a later task finishing before an earlier one: return_as='generator_unordered'",
+    'C04-bA': "RDM-only bootstrap with a grouped / non-ascending rdm_descriptor: bootstrap_sample_rdm returns rdms[positions] instead of the drawn groups",
+    'C04-bB': "string rdm labels and a rerun in a new process with another PYTHONHASHSEED: group order taken from set() iteration",
+    'C05-bA': "sets_k_fold with k_rdm >= 3 and (number of RDM groups mod k_rdm) >= 2: the left-over group index ignores the fold offset",
+    'C05-bB': "grouped pattern descriptor + cross-validation over RDMs + fitted model: crossval refits on rdms.subset_pattern(...) of the FULL data (test RDMs leak)",
+    'C09-bA': "'index' pattern descriptor that is not 0..n-1 (after subset_pattern / resampling a resample): index fast path assumes arange(n_cond)",
+    'C09-bB': "grouped rdm descriptor with unequal group sizes: groups drawn by position in the raw descriptor (probability proportional to size)",
+    'C10-bA': "get_matrices/reorder (cache filled), then append, then any use of the square form: stale cached matrices",
+    'C10-bB': "subsample then reorder/sort_by on sample or source: subsample shares the pattern_descriptors dict",
+    'C11-bA': "split_channel/subset_channel/split_time/... then sort_by on a part: sort_by writes into the shared obs_descriptors dict",
+    'C11-bB': "subset_time on a time descriptor that is not monotonically non-decreasing: binary search selection",
+    'C12-bA': "ndarray pattern descriptor with strictly increasing values + a shuffling fold generator: add_pattern_index hands out the caller's array",
+    'C12-bB': "subset_channel/split_channel then sort_by: Dataset.sort_by updates the shared obs_descriptors dict in place",
+    'C16-bA': "HDF5 + ragged descriptor list with more than 10 entries: dict_to_list takes group values in name order ('10' before '2')",
+    'C16-bB': "pickle + open handle already written + overwrite=True: remove_file only called for hdf5, new pickle appended after the old one",
+    'C18-bA': "an LDL pivot in the random Gram matrix (frequent when n_channel is close to n_cond): solve_triangular ignores the permuted part",
+    'C18-bB': "noise_cov_channel given and noise not in {0,1}: noise level applied twice",
+    'C19-bA': "more than 1000 centres and a data matrix that is not float64: chunked result buffer takes the data dtype",
+    'C19-bB': "n_jobs > 1: the searchlight iterator yields one reused RDMs object, pending tasks see a later centre's data",
 }
 
 
@@ -38,7 +56,7 @@ def main(ids):
         d = os.path.join(root, sid)
         prop = sid.split('-')[0]
         patch = os.path.join(d, 'patch.diff')
-        runs = {'C04': 900, 'C16': 1500}.get(prop, 2000)
+        runs = {'C04': 900, 'C16': 1500, 'C12': 2500, 'C19': 1200}.get(prop, 2000)
         r = subprocess.run([os.path.join(VERIF, 'tools', 'mutrun.sh'), patch, prop, '--runs', str(runs)],
                            capture_output=True, text=True, timeout=3600)
         sigs = re.findall(r'signature=(\S+)', r.stdout)
